@@ -108,6 +108,13 @@ class LoggedIter:
         return v
 
 
+class LoggedGen(LoggedIter):
+    """a generator-like one-shot iterator: close() ends it for good"""
+    def close(self):
+        self.rec.rec('iter_closed', self.i)
+        self.i = len(self.items)
+
+
 class LoggedList:
     """re-iterable: every iteration starts from the beginning"""
     def __init__(self, rec, items):
@@ -212,7 +219,7 @@ def run_source(sc):
                 return cnt[0]
             src = Stream.from_periodic(cb, poll_interval=s['poll'], **kw)
         elif s['type'] == 'iterable':
-            it = LoggedIter(rec, s['items']) if s.get('one_shot', True) else LoggedList(rec, s['items'])
+            it = (LoggedGen if s.get('gen_like') else LoggedIter)(rec, s['items']) if s.get('one_shot', True) else LoggedList(rec, s['items'])
             src = Stream.from_iterable(it, **kw)
         else:
             raise ValueError(s['type'])
